@@ -1,5 +1,115 @@
-From Coq Require Import String List Bool.
+(* C19 — every rule that `tally discover` suggests matches the transaction it was suggested for.
+
+   Model: C19/Model.v (hand model of discover.py's suggestion functions, of the part of the rules
+   loader and of CPython's string-literal un-escaping a suggestion exercises, and of contains()).
+   [observe re v d tags] = what the property observes for description d: the suggested rule text is
+   fed to the loader and the resulting rules are matched against d itself:
+     ObsLoaded true  — loads and matches;   ObsLoaded false — loads, does not match;
+     ObsLoadErr      — the loader rejects the text;   ObsUnm — outside the model (never, for the theorems below).
+   v = Orig is the unchanged source, v = Fixed the source with proposed_fixes/C19-literal-needle.diff.
+   regex() is a Section variable (oracle) everywhere: no theorem depends on regex semantics.
+
+   Tie to /repo: Gen/C19Patterns.v (regenerated on every run) must equal the literal lists of the model and
+   the statement lists in C19/Source.v ([c19_source_is_modelled]); harness/c19.py compares model and code. *)
+From Coq Require Import String List Bool NArith.
 From Tally Require Import Lib.Str C19.Model C19.Source Gen.C19Patterns C19.Proofs.
+Import ListNotations.
+Open Scope string_scope.
+
+(* ---- the source under test is the one the model was written against (literals + statements) ---- *)
 Theorem c19_source_is_modelled : source_ok.
 Proof. exact source_is_modelled. Qed.
 Print Assumptions c19_source_is_modelled.
+
+(* ---- the property at full strength, for a design v ---- *)
+Definition c19_suggestion_loads_statement (v : variant) : Prop :=
+  forall (re : string -> string -> option bool) (d : string) (neg : bool),
+    exists b, observe re v d (tags_of neg) = ObsLoaded b.
+Definition c19_suggestion_matches_statement (v : variant) : Prop :=
+  forall (re : string -> string -> option bool) (d : string) (neg : bool),
+    observe re v d (tags_of neg) = ObsLoaded true.
+
+(* ---- unchanged source: both are false ---- *)
+Theorem c19_suggestion_matches_refuted : ~ c19_suggestion_matches_statement Orig.
+Proof. exact matches_refuted. Qed.
+Print Assumptions c19_suggestion_matches_refuted.
+
+Theorem c19_suggestion_loads_refuted : ~ c19_suggestion_loads_statement Orig.
+Proof. exact loads_refuted. Qed.
+Print Assumptions c19_suggestion_loads_refuted.
+
+(* the three ways the unchanged suggestion misses its own description (each loads, none matches):
+   a multi-word suggestion (\s* inside contains()), an escaped metacharacter, a store number cut out of a word *)
+Theorem c19_orig_failure_witnesses :
+  observe no_re Orig "Acme Foo" [] = ObsLoaded false /\
+  observe no_re Orig "ACME.COM" [] = ObsLoaded false /\
+  observe no_re Orig "STORE #12X" [] = ObsLoaded false.
+Proof. exact (conj orig_multiword_fails (conj orig_metachar_fails orig_storeno_fails)). Qed.
+Print Assumptions c19_orig_failure_witnesses.
+
+(* what does hold for the unchanged source: if the description has no line feed, the store-number
+   substitution (\s+#\d+) did not fire, and the cleaned description is one word without regex
+   metacharacters (equivalently: the suggestion is a single plain word), the suggestion loads and matches *)
+Theorem c19_suggestion_matches_partial :
+  forall (re : string -> string -> option bool) (d : string) (neg : bool),
+    plain_guard d = true -> observe re Orig d (tags_of neg) = ObsLoaded true.
+Proof. exact matches_partial. Qed.
+Print Assumptions c19_suggestion_matches_partial.
+
+(* ---- repaired source: the full statements hold for ALL descriptions ---- *)
+Theorem c19_suggestion_matches_fixed : c19_suggestion_matches_statement Fixed.
+Proof. exact matches_fixed. Qed.
+Print Assumptions c19_suggestion_matches_fixed.
+
+Theorem c19_suggestion_loads_fixed : c19_suggestion_loads_statement Fixed.
+Proof. exact loads_fixed. Qed.
+Print Assumptions c19_suggestion_loads_fixed.
+
+(* the suggested text loads to exactly one rule, [rule_of d], whose needle the matcher finds in d *)
+Theorem c19_suggestion_rule_fixed :
+  forall d neg, exists text, suggested_rule Fixed d (tags_of neg) = Some text /\ parse_merchants text = Loaded [rule_of d].
+Proof. exact rule_of_loaded. Qed.
+Print Assumptions c19_suggestion_rule_fixed.
+
+(* appending the suggestions for the Unknown descriptions ds to any existing rules classifies every one
+   of them, so the Unknown list strictly shrinks: the discover-write-rerun loop terminates *)
+Theorem c19_unknown_list_shrinks_fixed :
+  forall (re : string -> string -> option bool) (existing : list rule) (ds : list string),
+    (forall d, In d ds -> matched re existing d = Some false) ->
+    (forall d, In d ds -> unknown re (existing ++ map rule_of ds) d = false) /\
+    (ds <> [] -> unknown_count re (existing ++ map rule_of ds) ds < unknown_count re existing ds).
+Proof. exact unknown_shrinks. Qed.
+Print Assumptions c19_unknown_list_shrinks_fixed.
+
+(* ---- the claimed theorems for the tree under test: unconditional as soon as the regenerated
+        Gen/C19Patterns.v says the source has the repaired design ---- *)
+Theorem c19_suggestion_matches :
+  C19Src.variant_of_source = Fixed -> c19_suggestion_matches_statement C19Src.variant_of_source.
+Proof. exact matches_of_source. Qed.
+Print Assumptions c19_suggestion_matches.
+
+Theorem c19_suggestion_loads :
+  C19Src.variant_of_source = Fixed -> c19_suggestion_loads_statement C19Src.variant_of_source.
+Proof. exact loads_of_source. Qed.
+Print Assumptions c19_suggestion_loads.
+
+(* ---- non-vacuity ---- *)
+Example c19_guard_satisfiable :
+  plain_guard "Netflix.com 12345 SEATTLE WA" = false /\ plain_guard "NETFLIX 12345 SEATTLE WA" = true /\
+  plain_guard "sq *Bakery 98101" = true /\ plain_guard "Acme Foo" = false /\ plain_guard "STORE #12X" = false /\
+  suggest_pattern "sq *Bakery 98101" = Some "BAKERY".
+Proof. vm_compute. repeat split; reflexivity. Qed.
+Example c19_fixed_examples :
+  suggested_rule Fixed "Starbucks Store 12345 Seattle WA" [] =
+    Some ("[Starbucks Store]" ++ s1 LF ++ "match: contains(""STARBUCKS STORE"")" ++ s1 LF ++ "category: CATEGORY" ++ s1 LF ++ "subcategory: SUBCATEGORY") /\
+  suggest_needle "ACME #12 FOO BAR" = Some "ACME" /\ suggest_needle "STORE #12X" = Some "STORE" /\
+  suggest_needle "say ""hi"" a\b" = Some "SAY ""HI"" A\B" /\
+  observe no_re Fixed "say ""hi"" a\b" ["refund"] = ObsLoaded true /\
+  observe no_re Fixed (String (chr 0) "x y") [] = ObsLoaded true.
+Proof. vm_compute. repeat split; reflexivity. Qed.
+Example c19_shrinks_hypothesis_satisfiable :
+  let existing := [ {| name := "Netflix"; mexpr := ECall "contains" "NETFLIX"; category := "Fun" |} ] in
+  matched no_re existing "Acme Foo" = Some false /\ matched no_re existing "ACME.COM" = Some false /\
+  unknown_count no_re existing ["Acme Foo"; "ACME.COM"; "netflix 1234"] = 2 /\
+  unknown_count no_re (existing ++ map rule_of ["Acme Foo"; "ACME.COM"]) ["Acme Foo"; "ACME.COM"; "netflix 1234"] = 0.
+Proof. vm_compute. repeat split; reflexivity. Qed.
